@@ -344,6 +344,8 @@ pub struct Gen<'r> {
     budget: i64,
     /// allow the shape of finding F4 (see `Program::aggsel`)
     aggsel: bool,
+    /// allow the shape of finding F6: an aggregate re-assigned from a constructor that reads the same variable
+    selfupd: bool,
 }
 
 impl<'r> Gen<'r> {
@@ -576,7 +578,8 @@ impl<'r> Gen<'r> {
             return Some(Expr::Call(s.name, args));
         }
         // generic helpers; selecting among several by-value aggregates of one type is the shape of finding F4
-        let scalar = matches!(t, Ty::Int(_) | Ty::Bool);
+        // (u256 is passed by reference like an aggregate: `g_sel::<u256>` shows F4 as well)
+        let scalar = matches!(t, Ty::Bool) || matches!(t, Ty::Int(w) if *w != W::U256);
         let mut pick = self.r.below(7);
         if !scalar && !self.aggsel && (pick == 3 || pick == 4) { pick = 0; }
         let e = match pick {
@@ -756,7 +759,17 @@ impl<'r> Gen<'r> {
                     // Aggregate re-assignments therefore never copy from another aggregate local.
                     // (Wrapping the value in a generic `#[inline(never)]` identity call instead trips an `unwrap` in
                     // sway-ir sroa.rs:392 in release builds.) Aggregates are re-assigned from constructor expressions.
-                    if !matches!(t, Ty::Int(_) | Ty::Bool) { e = self.gen_ctor(&t, depth); }
+                    if !matches!(t, Ty::Int(_) | Ty::Bool) {
+                        // finding F6: `v = Ctor(… reads of v …)` -- release's memcpyprop_reverse forwards the temporary into `v`
+                        // itself and the later field reads see already overwritten / stale fields. Only `prog-selfupd`
+                        // programs may read the assigned variable in the constructor.
+                        let hidden: Vec<(usize, Var)> = if self.selfupd { vec![] } else {
+                            let idx: Vec<usize> = (0..self.vars.len()).filter(|i| self.vars[*i].name == v.name).collect();
+                            idx.iter().rev().map(|i| (*i, self.vars.remove(*i))).collect()
+                        };
+                        e = self.gen_ctor(&t, depth);
+                        for (i, var) in hidden.into_iter().rev() { self.vars.insert(i, var); }
+                    }
                     out.push(Stmt::Assign { var: v.name, path, e });
                     return;
                 }
@@ -857,7 +870,8 @@ impl<'r> Gen<'r> {
         let mut params: Vec<(String, Ty)> = (0..np).map(|j| (format!("a{j}"), self.gen_ty(2))).collect();
         if !self.aggsel {
             for j in 1..params.len() {
-                let dup = !matches!(params[j].1, Ty::Int(_) | Ty::Bool) && params[..j].iter().any(|p| p.1 == params[j].1);
+                let by_ref = !matches!(params[j].1, Ty::Bool) && !matches!(&params[j].1, Ty::Int(w) if *w != W::U256);
+                let dup = by_ref && params[..j].iter().any(|p| p.1 == params[j].1);
                 if dup { params[j].1 = self.gen_scalar(); }
             }
         }
@@ -959,7 +973,7 @@ fn mutate(e: &mut Expr, target: &mut i64, nv: Num) {
 }
 
 /// Generate program number `k` of a package. `oob`: append a final read at an out-of-bounds dynamic index.
-pub fn gen_program(r: &mut Rng, k: usize, oob: bool, aggsel: bool) -> Program {
+pub fn gen_program(r: &mut Rng, k: usize, oob: bool, aggsel: bool, selfupd: bool) -> Program {
     let p_opq = *r.pick(&[0u64, 0, 25, 60, 100]);
     let widths = match r.below(6) {
         0 => vec![W::U64], 1 => vec![W::U8, W::U64], 2 => vec![W::U8, W::U16, W::U32, W::U64],
@@ -968,7 +982,7 @@ pub fn gen_program(r: &mut Rng, k: usize, oob: bool, aggsel: bool) -> Program {
     let budget = r.range(6, 40) as i64;
     let mut g = Gen {
         r, id: format!("p{k}"), structs: vec![], enums: vec![], consts: vec![], fns: vec![], sigs: vec![],
-        generics: BTreeSet::new(), vars: vec![], nvar: 0, in_loop: false, loop_depth: 0, p_opq, widths, budget, aggsel,
+        generics: BTreeSet::new(), vars: vec![], nvar: 0, in_loop: false, loop_depth: 0, p_opq, widths, budget, aggsel, selfupd,
     };
     g.gen_decls();
     let nf = g.r.below(4) as usize;
